@@ -535,7 +535,16 @@ def inline_new_helpers(tree, rel):
                         known.append((q, m, st.name))
                     else:
                         helpers[(st.name, m.name)] = m
-    helpers = {k: v for k, v in helpers.items() if _simple_helper(v)}
+    # a method that a subclass of the same module overrides is not a fixed piece of code at `self.h()` call sites
+    bases = {st.name: [ast.unparse(b).split(".")[-1] for b in st.bases] for st in tree.body if isinstance(st, ast.ClassDef)}
+    methods = {st.name: {m.name for m in st.body if isinstance(m, ast.FunctionDef)} for st in tree.body if isinstance(st, ast.ClassDef)}
+
+    def overridden(cls, name):
+        for sub, bs in bases.items():
+            if cls in bs and (name in methods.get(sub, ()) or overridden(sub, name)):
+                return True
+        return False
+    helpers = {k: v for k, v in helpers.items() if _simple_helper(v) and not (k[0] is not None and overridden(k[0], k[1]))}
     has_new_local = any(isinstance(st, ast.FunctionDef) and st.name not in load_table().get("__nested__", {}).get(rel, {}).get(q, [])
                         for q, fn, cls in known for st in fn.body)
     if not helpers and not has_new_local:
